@@ -422,6 +422,11 @@ def _run_verus_once(uid, gen_text, obls, workdir, timeout=600, rlimit=100):
         key_main = ("OBL", o.oid)
         key_kf = ("KF", o.oid)
         items = by_obl.get(key_main if o.kind != "kf" else key_kf, [])
+        if not any((kind, oid) == (key_main if o.kind != "kf" else key_kf) for _, kind, oid in marks):
+            # fail closed: an obligation that is declared but has no `//@ OBL id` marker in the generated text was never handed to the verifier
+            o.status = "undecided"; o.detail = "obligation declared by the unit but its marker is missing in the generated text (nothing was verified for it)"
+            res.undecided = res.undecided or f"obligation {o.oid}: marker missing in the generated text"
+            continue
         fb = times.get(o.fn or "", {})
         o.time_s = fb.get("time-micros", 0) / 1e6
         o.rlimit = fb.get("rlimit", 0)
